@@ -1,5 +1,5 @@
-CONSTANT Deep = TRUE
-CONSTANT AttrScope = "no"
+CONSTANT Deep = FALSE
+CONSTANT AttrScope = "slim"
 SPECIFICATION Spec
 INVARIANT DesignOK
 CHECK_DEADLOCK FALSE
